@@ -9,6 +9,9 @@
  *                                      deadlines (M = "-" or "ms,mu")
  *   met|timeout,maxtimeout|op;op..     ares_metrics_record / ares_metrics_server_timeout on a
  *                                      fabricated server; op = r,qs,qu,ns,nu,status,rcode | q,ns,nu
+ *   pt|S,tries,timeout,maxtimeout|s1,u1;s2,u2;...|ps,pu
+ *                                      queries sent at the given instants to silent servers, then
+ *                                      one ares_process_fd() at instant p: which were re-sent / ended
  * Channel cases drive one query through a real channel with virtual sockets, a virtual clock
  * (--wrap=ares_tvnow) and a scripted RNG (--wrap=ares_rand_bytes, ares_generate_new_id):
  *   retry|S,tries,timeout,maxtimeout,jmode,flags,t0|a;a;...
@@ -270,11 +273,11 @@ static int  cb_called, cb_status;
 static size_t cb_timeouts;
 static void q_cb(void *arg, ares_status_t status, size_t timeouts, const ares_dns_record_t *rec)
 {
-  (void)arg; (void)rec;
+  (void)rec;
   cb_called++;
   cb_status   = (int)status;
   cb_timeouts = timeouts;
-  OUT("CB %d %lu %lld %u", (int)status, (unsigned long)timeouts, (long long)vnow.sec, vnow.usec);
+  OUT("CB %d %lu %lld %u %ld", (int)status, (unsigned long)timeouts, (long long)vnow.sec, vnow.usec, (long)(size_t)arg);
 }
 
 static void servers_csv(int n, char *out, size_t outlen)
@@ -547,6 +550,9 @@ static void case_retry(char *args)
   maxiter = (int)(S * (tries > 400 ? 400 : tries)) + nacts + 64;
   while (!cb_called && iter++ < maxiter) {
     struct timeval tvbuf, *tv;
+    /* the theorems are stated for clock values below 2^61 s; saturated waits (2^63-1 ms each)
+       would take the virtual clock beyond that after a few hundred attempts: stop there */
+    if (vnow.sec >= ((ares_int64_t)1 << 61)) { OUT("CLOCKRANGE"); break; }
     const char    *a = (ai < nacts) ? acts[ai++] : "t";
     if (a[0] == 't' || a[0] == 'e' || a[0] == 'l') {
       tv = ares_timeout(ch, NULL, &tvbuf);
@@ -609,6 +615,51 @@ static void case_retry(char *args)
   vs_reset();
 }
 
+/* ------------------------------------------------------------------ pt: process_timeouts over several queries */
+static void case_pt(char *args)
+{
+  char           *parts[3], *cfg[4], *sends[300];
+  int             n, i, S;
+  long long       tries, timeout, maxtimeout;
+  ares_channel_t *ch;
+  ares_timeval_t  P;
+  struct timeval  tvbuf, *tv;
+  if (split(args, '|', parts, 3) != 3 || split(parts[0], ',', cfg, 4) != 4 || !tvparse(parts[2], &P)) { OUT("R BADCASE"); return; }
+  S = (int)num(cfg[0]); tries = num(cfg[1]); timeout = num(cfg[2]); maxtimeout = num(cfg[3]);
+  n = split(parts[1], ';', sends, 300);
+  jmode = 0; rng_state = (unsigned long long)(K * 2654435761u + 99); idctr = 0;
+  vs_reset();
+  cb_called = 0;
+  ch = mk_channel(S, tries, timeout, maxtimeout, 32 /* no EDNS: no cookie draws */);
+  if (!ch) { OUT("R NOCHANNEL"); return; }
+  OUT("CFG %lu %lu %lu %lu", (unsigned long)ares_slist_len(ch->servers), (unsigned long)ch->tries,
+      (unsigned long)ch->timeout, (unsigned long)ch->maxtimeout);
+  for (i = 0; i < n; i++) {
+    ares_dns_record_t *rec = NULL;
+    unsigned short     qid = 0;
+    char               name[64];
+    if (!tvparse(sends[i], &vnow)) { OUT("R BADCASE"); break; }
+    snprintf(name, sizeof(name), "q%d.example", i);
+    if (ares_dns_record_create(&rec, 0, ARES_FLAG_RD, ARES_OPCODE_QUERY, ARES_RCODE_NOERROR) != ARES_SUCCESS ||
+        ares_dns_record_query_add(rec, name, ARES_REC_TYPE_A, ARES_CLASS_IN) != ARES_SUCCESS) {
+      OUT("R NOMEM"); ares_dns_record_destroy(rec); break;
+    }
+    ares_send_dnsrec(ch, rec, q_cb, (void *)(size_t)i, &qid);
+    ares_dns_record_destroy(rec);
+    OUT("Q %d %u", i, (unsigned int)qid);
+  }
+  vnow = P;
+  OUT("E process");
+  ares_process_fd(ch, ARES_SOCKET_BAD, ARES_SOCKET_BAD);
+  tv = ares_timeout(ch, NULL, &tvbuf);
+  if (tv == NULL) OUT("H none");
+  else OUT("H %lld %lld", (long long)tv->tv_sec, (long long)tv->tv_usec);
+  OUT("END %d %d %lu", ntx, cb_called, (unsigned long)ares_queue_active_queries(ch));
+  cb_called = 0;
+  ares_destroy(ch);
+  vs_reset();
+}
+
 static void run_case(long k, char *line)
 {
   char *bar = strchr(line, '|');
@@ -619,6 +670,7 @@ static void run_case(long k, char *line)
   else if (!strcmp(line, "tmo")) case_tmo(bar + 1);
   else if (!strcmp(line, "met")) case_met(bar + 1);
   else if (!strcmp(line, "retry")) case_retry(bar + 1);
+  else if (!strcmp(line, "pt")) case_pt(bar + 1);
   else OUT("R BADKIND");
 }
 
